@@ -57,6 +57,12 @@ def run_case(args):
         o["LinearRF"] = False
         o["BendingRadius"] = 200.0      # keeps the synchronous phase ~ 0 (the statement is about small amplitudes)
     P = physics.derive({k: v for k, v in o.items()})
+    if i % 6 == 1:
+        # the step size given per revolution (overrides StepsPerTs, which stays at an unrelated value): the configured angle is
+        # 2 pi over the number of steps per synchrotron period that implies; the period is closed at the nearest whole step
+        o["StepsPerRevolution"] = round(P["steps"] * P["fs"] / P["frev"], 9)
+        o["StepsPerTs"] = int(r.choice([2 * steps, max(20, steps // 3), 1000 if abs(steps - 1000) > 300 else 250]))
+        P = physics.derive({k: v for k, v in o.items()})
     wd = os.path.join(sdir, "c%04d" % i)
     os.makedirs(wd, exist_ok=True)
     nblob = r.choice([1, 2])
@@ -126,7 +132,7 @@ def run_case(args):
             viol.append(("C03:prog:rotation:" + ("sinus" if sinus else "linear"), "recorded centre of charge deviates from the rotation by k*2pi/steps by more than the splitting error",
                          dict(step=int(k), q=q[rec], p=p[rec], bound=tol2, err=e2)))
             break
-    out.update(viol=viol, worst1=worst1, worst2=worst2, records=len(t), closed=(k == P["laststep"] and not viol), c0=c0)
+    out.update(viol=viol, worst1=worst1, worst2=worst2, records=len(t), closed=(k == P["laststep"] and not viol), c0=c0, per_rev="StepsPerRevolution" in o)
     shutil.rmtree(wd, ignore_errors=True)
     return out
 
@@ -151,10 +157,12 @@ def run(ctx):
         ctx.ev("program_records_checked", res["records"])
         if res["closed"]:
             ctx.ev("program_periods_closed")
+        if res.get("per_rev"):
+            ctx.ev("program_runs_with_steps_per_revolution")
         kind = "sinus" if res["sinus"] else "linear"
         ctx.residual("prog.centroid_vs_matrix_product_over_tol." + kind, res["worst1"], 1.0)
         ctx.residual("prog.centroid_vs_rotation_over_bound." + kind, res["worst2"], 1.0)
         for key, what, det in res["viol"]:
             ctx.violation(key, what, dict(det, cmd=res["cmd"], options=res["opts"]))
         ctx.sample(dict(options=res["opts"], start_centroid=res["c0"], records=res["records"]))
-    ctx.min_events = {"steps_observed": 5000, "periods_closed": 40, "periods_closed_bunch>0": 10, "program_runs": n // 2, "program_periods_closed": n // 3}
+    ctx.min_events = {"steps_observed": 5000, "periods_closed": 40, "periods_closed_bunch>0": 10, "program_runs": n // 2, "program_periods_closed": n // 3, "program_runs_with_steps_per_revolution": 2}
